@@ -277,29 +277,42 @@ theorem NnGap.app {b : Buf} {pe vs : Nat} (h : NnGap b pe vs) (s : Buf) : NnGap 
   obtain ⟨eq, h1, h2, h3, h4, h5⟩ := h
   exact ⟨eq, h1, h2, nn_run_app h3 s, get?_app h4, nn_run_app h5 s⟩
 
+/-- the gap claim is made for the header kinds whose values are separated by `,` (Contact, …): in the other kinds
+    (From, To, …) the automaton silently skips commas in front of an unquoted parameter value -/
+def nnGapM (mv : Bool) (b : Buf) (pe vs : Nat) : Prop := match mv with | true => NnGap b pe vs | false => True
+
+def nnEqM (mv : Bool) (vs i : Nat) : Prop := match mv with | true => vs = i | false => True
+
+theorem nnGapM.app {mv : Bool} {b : Buf} {pe vs : Nat} (h : nnGapM mv b pe vs) (s : Buf) : nnGapM mv (b ++ s) pe vs := by
+  cases mv
+  · trivial
+  · exact NnGap.app h s
+
 /-! ### D. the loop invariant: the numeric fields are the fold of `nnEffect` over recorded spans -/
 
 /-- a recorded parameter span: the name `[ps, pe)` is not empty and starts at or after `o`; either there is no value
     text (`vs = ve`) or the value `[vs, ve)` is not empty, lies after the name, and between the two there is nothing but
     white space and exactly one `=`; everything ends at or before `lim` -/
-def NnSpanOk (b : Buf) (o lim : Nat) (x : PSpan) : Prop :=
-  o ≤ x.ps ∧ x.ps < x.pe ∧ x.pe ≤ lim ∧ (x.vs = x.ve ∨ (x.pe < x.vs ∧ x.vs < x.ve ∧ x.ve ≤ lim ∧ NnGap b x.pe x.vs))
+def NnSpanOk (mv : Bool) (b : Buf) (o lim : Nat) (x : PSpan) : Prop :=
+  o ≤ x.ps ∧ x.ps < x.pe ∧ x.pe ≤ lim ∧ (x.vs = x.ve ∨ (x.pe < x.vs ∧ x.vs < x.ve ∧ x.ve ≤ lim ∧ nnGapM mv b x.pe x.vs))
 
-theorem NnSpanOk.mono {b : Buf} {o i j : Nat} {x : PSpan} (h : NnSpanOk b o i x) (hij : i ≤ j) : NnSpanOk b o j x := by
+theorem NnSpanOk.mono {mv : Bool} {b : Buf} {o i j : Nat} {x : PSpan} (h : NnSpanOk mv b o i x) (hij : i ≤ j) : NnSpanOk mv b o j x := by
   obtain ⟨h1, h2, h3, h4⟩ := h
   refine ⟨h1, h2, by omega, ?_⟩
   rcases h4 with h4 | h4
   · exact Or.inl h4
   · exact Or.inr ⟨h4.1, h4.2.1, by have := h4.2.2.1; omega, h4.2.2.2⟩
 
+variable {mv : Bool}
+
 /-- the numeric fields after all parameters of the list, in order -/
 def nnAll (b : Buf) (L : List PSpan) (m : NnNum) : NnNum := L.foldl (fun m x => nnEffect b x.ps x.pe x.vs x.ve m) m
 
 /-- the numeric fields `m` are what the parameters at the spans `L` (in order) do to `m0` -/
-def NnAcc (b : Buf) (m0 : NnNum) (o lim : Nat) (m : NnNum) : Prop :=
-  ∃ L : List PSpan, m = nnAll b L m0 ∧ ∀ x ∈ L, NnSpanOk b o lim x
+def NnAcc (mv : Bool) (b : Buf) (m0 : NnNum) (o lim : Nat) (m : NnNum) : Prop :=
+  ∃ L : List PSpan, m = nnAll b L m0 ∧ ∀ x ∈ L, NnSpanOk mv b o lim x
 
-theorem NnAcc.mono {b : Buf} {m0 m : NnNum} {o i j : Nat} (h : NnAcc b m0 o i m) (hij : i ≤ j) : NnAcc b m0 o j m := by
+theorem NnAcc.mono {b : Buf} {m0 m : NnNum} {o i j : Nat} (h : NnAcc mv b m0 o i m) (hij : i ≤ j) : NnAcc mv b m0 o j m := by
   obtain ⟨L, h1, h2⟩ := h
   exact ⟨L, h1, fun x hx => (h2 x hx).mono hij⟩
 
@@ -309,8 +322,8 @@ theorem nn_all_snoc (b : Buf) (L : List PSpan) (x : PSpan) (m : NnNum) :
   rw [List.foldl_append]
   rfl
 
-theorem NnAcc.snoc {b : Buf} {m0 m : NnNum} {o i : Nat} (h : NnAcc b m0 o i m) (x : PSpan) (hx : NnSpanOk b o i x) :
-    NnAcc b m0 o i (nnEffect b x.ps x.pe x.vs x.ve m) := by
+theorem NnAcc.snoc {b : Buf} {m0 m : NnNum} {o i : Nat} (h : NnAcc mv b m0 o i m) (x : PSpan) (hx : NnSpanOk mv b o i x) :
+    NnAcc mv b m0 o i (nnEffect b x.ps x.pe x.vs x.ve m) := by
   obtain ⟨L, h1, h2⟩ := h
   refine ⟨L ++ [x], by rw [nn_all_snoc, h1], ?_⟩
   intro y hy
@@ -319,28 +332,28 @@ theorem NnAcc.snoc {b : Buf} {m0 m : NnNum} {o i : Nat} (h : NnAcc b m0 o i m) (
   · rw [List.mem_singleton.1 hy]; exact hx
 
 /-- what a returned object satisfies -/
-def NnOut (b : Buf) (m0 : NnNum) (o lim : Nat) (pf : PFromBody) : Prop :=
-  lim ≤ b.size ∧ NnAcc b m0 o lim pf.nnNum
+def NnOut (mv : Bool) (b : Buf) (m0 : NnNum) (o lim : Nat) (pf : PFromBody) : Prop :=
+  lim ≤ b.size ∧ NnAcc mv b m0 o lim pf.nnNum
 
-theorem NnOut.mono {b : Buf} {m0 : NnNum} {o i j : Nat} {pf : PFromBody} (h : NnOut b m0 o i pf) (hij : i ≤ j)
-    (hj : j ≤ b.size) : NnOut b m0 o j pf := ⟨hj, h.2.mono hij⟩
+theorem NnOut.mono {b : Buf} {m0 : NnNum} {o i j : Nat} {pf : PFromBody} (h : NnOut mv b m0 o i pf) (hij : i ≤ j)
+    (hj : j ≤ b.size) : NnOut mv b m0 o j pf := ⟨hj, h.2.mono hij⟩
 
 /-- the four work offsets, by automaton state -/
-def nnPend (b : Buf) (o i : Nat) (st : FBState) (ps pe vs ve : Nat) : Prop :=
+def nnPend (mv : Bool) (b : Buf) (o i : Nat) (st : FBState) (ps pe vs ve : Nat) : Prop :=
   match st with
   | .paramName | .possibleParamName => o ≤ ps ∧ ps < i ∧ vs = ve
   | .paramNameEnd | .possibleParamNameEnd => o ≤ ps ∧ ps < pe ∧ vs = ve ∧ Run isLWSch b pe i
-  | .newParamVal | .newPossibleVal => o ≤ ps ∧ ps < pe ∧ pe < vs ∧ vs = i ∧ NnGap b pe i
-  | .paramVal | .possibleVal | .quotedVal | .quotedPossibleVal => o ≤ ps ∧ ps < pe ∧ pe < vs ∧ vs < i ∧ NnGap b pe vs
-  | .paramValEnd | .possibleValEnd => o ≤ ps ∧ ps < pe ∧ pe < vs ∧ vs < ve ∧ NnGap b pe vs
+  | .newParamVal | .newPossibleVal => o ≤ ps ∧ ps < pe ∧ pe < vs ∧ vs ≤ i ∧ nnEqM mv vs i ∧ nnGapM mv b pe i
+  | .paramVal | .possibleVal | .quotedVal | .quotedPossibleVal => o ≤ ps ∧ ps < pe ∧ pe < vs ∧ vs < i ∧ nnGapM mv b pe vs
+  | .paramValEnd | .possibleValEnd => o ≤ ps ∧ ps < pe ∧ pe < vs ∧ vs < ve ∧ nnGapM mv b pe vs
   | _ => pe ≤ ps ∧ vs = ve
 
 /-- the states whose facts mention the current position exactly (the scan stands right after white space) -/
 def nnAtPos (st : FBState) : Prop :=
   st = .paramNameEnd ∨ st = .possibleParamNameEnd ∨ st = .newParamVal ∨ st = .newPossibleVal
 
-theorem nnPend_mono {b : Buf} {o i j : Nat} {st : FBState} {ps pe vs ve : Nat} (h : nnPend b o i st ps pe vs ve) (hij : i ≤ j)
-    (hst : ¬ nnAtPos st) : nnPend b o j st ps pe vs ve := by
+theorem nnPend_mono {b : Buf} {o i j : Nat} {st : FBState} {ps pe vs ve : Nat} (h : nnPend mv b o i st ps pe vs ve) (hij : i ≤ j)
+    (hst : ¬ nnAtPos st) : nnPend mv b o j st ps pe vs ve := by
   unfold nnAtPos at hst
   cases st <;> simp only [nnPend] at h ⊢ <;>
     first
@@ -352,30 +365,30 @@ theorem nnPend_mono {b : Buf} {o i j : Nat} {st : FBState} {ps pe vs ve : Nat} (
       | exact ⟨h.1, h.2.1, h.2.2.1, by have := h.2.2.2.1; omega, h.2.2.2.2⟩
 
 /-- **the loop invariant** -/
-structure NnInv (b : Buf) (m0 : NnNum) (o i : Nat) (pf : PFromBody) : Prop where
+structure NnInv (mv : Bool) (b : Buf) (m0 : NnNum) (o i : Nat) (pf : PFromBody) : Prop where
   oi : o ≤ i
   hi : i ≤ b.size
   pend : pf.pend ≤ i
   vend : pf.vend ≤ i
-  pk : nnPend b o i pf.state pf.pstart pf.pend pf.vstart pf.vend
-  acc : NnAcc b m0 o i pf.nnNum
+  pk : nnPend mv b o i pf.state pf.pstart pf.pend pf.vstart pf.vend
+  acc : NnAcc mv b m0 o i pf.nnNum
 
-theorem NnInv.mono {b : Buf} {m0 : NnNum} {o i j : Nat} {pf : PFromBody} (h : NnInv b m0 o i pf) (hij : i ≤ j)
-    (hj : j ≤ b.size) (hst : ¬ nnAtPos pf.state) : NnInv b m0 o j pf :=
+theorem NnInv.mono {b : Buf} {m0 : NnNum} {o i j : Nat} {pf : PFromBody} (h : NnInv mv b m0 o i pf) (hij : i ≤ j)
+    (hj : j ≤ b.size) (hst : ¬ nnAtPos pf.state) : NnInv mv b m0 o j pf :=
   ⟨by have := h.oi; omega, hj, by have := h.pend; omega, by have := h.vend; omega, nnPend_mono h.pk hij hst, h.acc.mono hij⟩
 
-theorem NnInv.out {b : Buf} {m0 : NnNum} {o i : Nat} {pf : PFromBody} (h : NnInv b m0 o i pf) : NnOut b m0 o i pf :=
+theorem NnInv.out {b : Buf} {m0 : NnNum} {o i : Nat} {pf : PFromBody} (h : NnInv mv b m0 o i pf) : NnOut mv b m0 o i pf :=
   ⟨h.hi, h.acc⟩
 
 /-- the invariant only looks at the state, the work offsets and the parameter-dependent fields -/
-theorem NnInv.congr {b : Buf} {m0 : NnNum} {o i : Nat} {pf pf' : PFromBody} (h : NnInv b m0 o i pf)
+theorem NnInv.congr {b : Buf} {m0 : NnNum} {o i : Nat} {pf pf' : PFromBody} (h : NnInv mv b m0 o i pf)
     (h1 : pf'.state = pf.state) (h2 : pf'.pstart = pf.pstart) (h3 : pf'.pend = pf.pend) (h4 : pf'.vstart = pf.vstart)
-    (h5 : pf'.vend = pf.vend) (h6 : pf'.nnNum = pf.nnNum) : NnInv b m0 o i pf' :=
+    (h5 : pf'.vend = pf.vend) (h6 : pf'.nnNum = pf.nnNum) : NnInv mv b m0 o i pf' :=
   ⟨h.oi, h.hi, by rw [h3]; exact h.pend, by rw [h5]; exact h.vend, by rw [h1, h2, h3, h4, h5]; exact h.pk,
    by rw [h6]; exact h.acc⟩
 
-theorem NnOut.congr {b : Buf} {m0 : NnNum} {o i : Nat} {pf pf' : PFromBody} (h : NnOut b m0 o i pf)
-    (h6 : pf'.nnNum = pf.nnNum) : NnOut b m0 o i pf' := ⟨h.1, by rw [h6]; exact h.2⟩
+theorem NnOut.congr {b : Buf} {m0 : NnNum} {o i : Nat} {pf pf' : PFromBody} (h : NnOut mv b m0 o i pf)
+    (h6 : pf'.nnNum = pf.nnNum) : NnOut mv b m0 o i pf' := ⟨h.1, by rw [h6]; exact h.2⟩
 
 /-! #### `setFromParamVal` under the invariant -/
 
@@ -389,17 +402,17 @@ theorem nn_sfp_acc (b : Buf) (pf : PFromBody) (h1 : pf.pend ≤ b.size) (h2 : pf
 
 /-- storing a parameter: the span joins the list -/
 theorem nn_sfp_out {b : Buf} {m0 : NnNum} {o i : Nat} (pf : PFromBody) (hi : i ≤ b.size) (hpe : pf.pend ≤ i)
-    (hve : pf.vend ≤ i) (hsp : NnSpanOk b o i ⟨pf.pstart, pf.pend, pf.vstart, pf.vend⟩) (hacc : NnAcc b m0 o i pf.nnNum) :
-    NnOut b m0 o i (setFromParamVal b pf) := by
+    (hve : pf.vend ≤ i) (hsp : NnSpanOk mv b o i ⟨pf.pstart, pf.pend, pf.vstart, pf.vend⟩) (hacc : NnAcc mv b m0 o i pf.nnNum) :
+    NnOut mv b m0 o i (setFromParamVal b pf) := by
   have h := nn_sfp_acc b pf (by omega) (by omega)
   refine ⟨hi, ?_⟩
   rw [h.1]
   exact hacc.snoc ⟨pf.pstart, pf.pend, pf.vstart, pf.vend⟩ hsp
 
 theorem nn_sfp_inv {b : Buf} {m0 : NnNum} {o i j : Nat} (pf : PFromBody) (hoi : o ≤ i) (hi : i ≤ b.size) (hpe : pf.pend ≤ i)
-    (hve : pf.vend ≤ i) (hsp : NnSpanOk b o i ⟨pf.pstart, pf.pend, pf.vstart, pf.vend⟩) (hacc : NnAcc b m0 o i pf.nnNum)
+    (hve : pf.vend ≤ i) (hsp : NnSpanOk mv b o i ⟨pf.pstart, pf.pend, pf.vstart, pf.vend⟩) (hacc : NnAcc mv b m0 o i pf.nnNum)
     (hst : pf.state = .newParam ∨ pf.state = .newPossibleParam) (hij : i ≤ j) (hj : j ≤ b.size) :
-    NnInv b m0 o j (setFromParamVal b pf) := by
+    NnInv mv b m0 o j (setFromParamVal b pf) := by
   have h := nn_sfp_acc b pf (by omega) (by omega)
   have ho := nn_sfp_out pf hi hpe hve hsp hacc
   refine ⟨by omega, hj, by rw [h.2.2.2.1]; omega, by rw [h.2.2.2.2.2]; omega, ?_, ho.2.mono hij⟩
@@ -420,10 +433,10 @@ theorem nn_eohPN_acc (b : Buf) (pf : PFromBody) (e : Nat) : (naEOHParamName b pf
   split <;> rfl
 
 /-- parameter-name states at the end of the value -/
-theorem nn_eohPN {b : Buf} {m0 : NnNum} {o i : Nat} {pf : PFromBody} (hI : NnInv b m0 o i pf) (e : Nat)
+theorem nn_eohPN {b : Buf} {m0 : NnNum} {o i : Nat} {pf : PFromBody} (hI : NnInv mv b m0 o i pf) (e : Nat)
     (hst : pf.state = .newParam ∨ pf.state = .newPossibleParam ∨ ((pf.state = .paramName ∨ pf.state = .possibleParamName) ∧ e = i) ∨
       pf.state = .paramNameEnd ∨ pf.state = .possibleParamNameEnd) :
-    NnOut b m0 o i (naEOHParamName b pf e) := by
+    NnOut mv b m0 o i (naEOHParamName b pf e) := by
   obtain ⟨h1, h2, h3, h4, h5, h6⟩ := hI
   refine NnOut.congr (pf := nnPf2 b pf e) ?_ (nn_eohPN_acc b pf e)
   unfold nnPf2 nnPf1
@@ -440,42 +453,43 @@ theorem nn_eohPN {b : Buf} {m0 : NnNum} {o i : Nat} {pf : PFromBody} (hI : NnInv
     exact nn_sfp_out _ h2 h3 h4 ⟨h5.1, h5.2.1, h3, Or.inl h5.2.2.1⟩ h6
 
 /-- value states at the end of the value (the value ends at the current position) -/
-theorem nn_eohPV {b : Buf} {m0 : NnNum} {o i : Nat} {pf : PFromBody} (hI : NnInv b m0 o i pf)
-    (hst : pf.state = .paramVal ∨ pf.state = .possibleVal) : NnOut b m0 o i (naEOHVal b pf i) := by
+theorem nn_eohPV {b : Buf} {m0 : NnNum} {o i : Nat} {pf : PFromBody} (hI : NnInv mv b m0 o i pf)
+    (hst : pf.state = .paramVal ∨ pf.state = .possibleVal) : NnOut mv b m0 o i (naEOHVal b pf i) := by
   obtain ⟨h1, h2, h3, h4, h5, h6⟩ := hI
   refine NnOut.congr (pf := setFromParamVal b { pf with vend := i }) ?_ rfl
-  have h5' : o ≤ pf.pstart ∧ pf.pstart < pf.pend ∧ pf.pend < pf.vstart ∧ pf.vstart < i ∧ NnGap b pf.pend pf.vstart := by
+  have h5' : o ≤ pf.pstart ∧ pf.pstart < pf.pend ∧ pf.pend < pf.vstart ∧ pf.vstart < i ∧ nnGapM mv b pf.pend pf.vstart := by
     rcases hst with g | g <;> simpa only [g, nnPend] using h5
   exact nn_sfp_out _ h2 h3 (Nat.le_refl _)
     ⟨h5'.1, h5'.2.1, h3, Or.inr ⟨h5'.2.2.1, h5'.2.2.2.1, Nat.le_refl _, h5'.2.2.2.2⟩⟩ h6
 
-theorem nn_eohNV {b : Buf} {m0 : NnNum} {o i : Nat} {pf : PFromBody} (hI : NnInv b m0 o i pf)
+theorem nn_eohNV {b : Buf} {m0 : NnNum} {o i : Nat} {pf : PFromBody} (hI : NnInv mv b m0 o i pf)
     (hst : pf.state = .newParamVal ∨ pf.state = .newPossibleVal) :
-    NnOut b m0 o i (naEOHVal b { pf with vstart := i } i) := by
+    NnOut mv b m0 o i (naEOHVal b { pf with vstart := i } i) := by
   obtain ⟨h1, h2, h3, h4, h5, h6⟩ := hI
   refine NnOut.congr (pf := setFromParamVal b { pf with vstart := i, vend := i }) ?_ rfl
-  have h5' : o ≤ pf.pstart ∧ pf.pstart < pf.pend ∧ pf.pend < pf.vstart ∧ pf.vstart = i ∧ NnGap b pf.pend i := by
+  have h5' : o ≤ pf.pstart ∧ pf.pstart < pf.pend ∧ pf.pend < pf.vstart ∧ pf.vstart ≤ i ∧ nnEqM mv pf.vstart i ∧
+      nnGapM mv b pf.pend i := by
     rcases hst with g | g <;> simpa only [g, nnPend] using h5
   exact nn_sfp_out _ h2 h3 (Nat.le_refl _) ⟨h5'.1, h5'.2.1, h3, Or.inl rfl⟩ h6
 
-theorem nn_eohPVE {b : Buf} {m0 : NnNum} {o i : Nat} {pf : PFromBody} (hI : NnInv b m0 o i pf) (e : Nat)
+theorem nn_eohPVE {b : Buf} {m0 : NnNum} {o i : Nat} {pf : PFromBody} (hI : NnInv mv b m0 o i pf) (e : Nat)
     (hst : pf.state = .paramValEnd ∨ pf.state = .possibleValEnd) :
-    NnOut b m0 o i (((setFromParamVal b pf).extParams e).extV e) := by
+    NnOut mv b m0 o i (((setFromParamVal b pf).extParams e).extV e) := by
   obtain ⟨h1, h2, h3, h4, h5, h6⟩ := hI
   refine NnOut.congr (pf := setFromParamVal b pf) ?_ rfl
-  have h5' : o ≤ pf.pstart ∧ pf.pstart < pf.pend ∧ pf.pend < pf.vstart ∧ pf.vstart < pf.vend ∧ NnGap b pf.pend pf.vstart := by
+  have h5' : o ≤ pf.pstart ∧ pf.pstart < pf.pend ∧ pf.pend < pf.vstart ∧ pf.vstart < pf.vend ∧ nnGapM mv b pf.pend pf.vstart := by
     rcases hst with g | g <;> simpa only [g, nnPend] using h5
   exact nn_sfp_out _ h2 h3 h4 ⟨h5'.1, h5'.2.1, h3, Or.inr ⟨h5'.2.2.1, h5'.2.2.2.1, h4, h5'.2.2.2.2⟩⟩ h6
 
 /-- **label `endOfHdr`**: whatever the state, the returned object satisfies `NnOut`.  `e` is the end of the value: the
     current position, or (new `,` case after white space) the saved end of the last name / value. -/
-theorem nn_eoh (h : Nat) {b : Buf} {m0 : NnNum} {o i : Nat} {pf : PFromBody} (hI : NnInv b m0 o i pf) (e n crl : Nat) (r : Err)
+theorem nn_eoh (h : Nat) {b : Buf} {m0 : NnNum} {o i : Nat} {pf : PFromBody} (hI : NnInv mv b m0 o i pf) (e n crl : Nat) (r : Err)
     (he : e = i ∨ pf.state = .paramNameEnd ∨ pf.state = .possibleParamNameEnd ∨ pf.state = .paramValEnd ∨
       pf.state = .possibleValEnd) (hin : i ≤ n + crl) (hn : n + crl ≤ b.size) :
-    NnOut b m0 o (naEOH h b pf e n crl r).1 (naEOH h b pf e n crl r).2.2 := by
+    NnOut mv b m0 o (naEOH h b pf e n crl r).1 (naEOH h b pf e n crl r).2.2 := by
   rw [naEOH_fst]
   refine NnOut.mono (i := i) ?_ hin hn
-  have fin_out : ∀ p : PFromBody, NnOut b m0 o i p → NnOut b m0 o i { p with state := .fin, soffs := 0, type := h } :=
+  have fin_out : ∀ p : PFromBody, NnOut mv b m0 o i p → NnOut mv b m0 o i { p with state := .fin, soffs := 0, type := h } :=
     fun p hp => hp.congr rfl
   unfold naEOH
   cases hst : pf.state <;> simp only [naFinish]
@@ -503,43 +517,43 @@ theorem nn_eoh (h : Nat) {b : Buf} {m0 : NnNum} {o i : Nat} {pf : PFromBody} (hI
 /-! #### one step of the loop body -/
 
 /-- what one step guarantees: a continuing step and a MoreBytes exit keep the invariant, every exit satisfies `NnOut` -/
-def nnStepOk (b : Buf) (m0 : NnNum) (o : Nat) : Step PFromBody → Prop
-  | .cont i' st' => NnInv b m0 o i' st'
-  | .done p e st' => NnOut b m0 o p st' ∧ (e = .moreBytes → NnInv b m0 o p st')
+def nnStepOk (mv : Bool) (b : Buf) (m0 : NnNum) (o : Nat) : Step PFromBody → Prop
+  | .cont i' st' => NnInv mv b m0 o i' st'
+  | .done p e st' => NnOut mv b m0 o p st' ∧ (e = .moreBytes → NnInv mv b m0 o p st')
 
-theorem nn_ok_cont {b : Buf} {m0 : NnNum} {o i' : Nat} {st' : PFromBody} (hI : NnInv b m0 o i' st') :
-    nnStepOk b m0 o (.cont i' st') := hI
+theorem nn_ok_cont {b : Buf} {m0 : NnNum} {o i' : Nat} {st' : PFromBody} (hI : NnInv mv b m0 o i' st') :
+    nnStepOk mv b m0 o (.cont i' st') := hI
 
-theorem nn_ok_err {b : Buf} {m0 : NnNum} {o p : Nat} {e : Err} {st' : PFromBody} (hout : NnOut b m0 o p st')
-    (he : e ≠ .moreBytes) : nnStepOk b m0 o (.done p e st') := ⟨hout, fun hh => absurd hh he⟩
+theorem nn_ok_err {b : Buf} {m0 : NnNum} {o p : Nat} {e : Err} {st' : PFromBody} (hout : NnOut mv b m0 o p st')
+    (he : e ≠ .moreBytes) : nnStepOk mv b m0 o (.done p e st') := ⟨hout, fun hh => absurd hh he⟩
 
-theorem nn_ok_more {b : Buf} {m0 : NnNum} {o p : Nat} {e : Err} {st' : PFromBody} (hI : NnInv b m0 o p st') :
-    nnStepOk b m0 o (.done p e st') := ⟨hI.out, fun _ => hI⟩
+theorem nn_ok_more {b : Buf} {m0 : NnNum} {o p : Nat} {e : Err} {st' : PFromBody} (hI : NnInv mv b m0 o p st') :
+    nnStepOk mv b m0 o (.done p e st') := ⟨hI.out, fun _ => hI⟩
 
-theorem NnInv.saveS {b : Buf} {m0 : NnNum} {o i : Nat} {pf : PFromBody} (h : NnInv b m0 o i pf) : NnInv b m0 o i pf.saveS :=
+theorem NnInv.saveS {b : Buf} {m0 : NnNum} {o i : Nat} {pf : PFromBody} (h : NnInv mv b m0 o i pf) : NnInv mv b m0 o i pf.saveS :=
   h.congr rfl rfl rfl rfl rfl rfl
 
-theorem nn_eoh_ok (h : Nat) {b : Buf} {m0 : NnNum} {o i : Nat} {pf : PFromBody} (hI : NnInv b m0 o i pf) (e n crl : Nat) (r : Err)
+theorem nn_eoh_ok (h : Nat) {b : Buf} {m0 : NnNum} {o i : Nat} {pf : PFromBody} (hI : NnInv mv b m0 o i pf) (e n crl : Nat) (r : Err)
     (hr : r ≠ .moreBytes)
     (he : e = i ∨ pf.state = .paramNameEnd ∨ pf.state = .possibleParamNameEnd ∨ pf.state = .paramValEnd ∨
       pf.state = .possibleValEnd) (hin : i ≤ n + crl) (hn : n + crl ≤ b.size) :
-    nnStepOk b m0 o (.done (naEOH h b pf e n crl r).1 (naEOH h b pf e n crl r).2.1 (naEOH h b pf e n crl r).2.2) :=
+    nnStepOk mv b m0 o (.done (naEOH h b pf e n crl r).1 (naEOH h b pf e n crl r).2.1 (naEOH h b pf e n crl r).2.2) :=
   nn_ok_err (nn_eoh h hI e n crl r he hin hn) (naEOH_ne_more h b pf e n crl r hr)
 
-theorem nn_moreValues (h : Nat) {b : Buf} {m0 : NnNum} {o i : Nat} {pf : PFromBody} (hI : NnInv b m0 o i pf) (hlt : i < b.size) :
-    nnStepOk b m0 o (naMoreValues h b pf i) :=
+theorem nn_moreValues (h : Nat) {b : Buf} {m0 : NnNum} {o i : Nat} {pf : PFromBody} (hI : NnInv mv b m0 o i pf) (hlt : i < b.size) :
+    nnStepOk mv b m0 o (naMoreValues h b pf i) :=
   nn_eoh_ok h hI i i 1 .moreValues (by decide) (Or.inl rfl) (by omega) (by omega)
 
-theorem nn_commaAfterWS (h : Nat) {b : Buf} {m0 : NnNum} {o i : Nat} {pf : PFromBody} (hI : NnInv b m0 o i pf) (hlt : i < b.size)
+theorem nn_commaAfterWS (h : Nat) {b : Buf} {m0 : NnNum} {o i : Nat} {pf : PFromBody} (hI : NnInv mv b m0 o i pf) (hlt : i < b.size)
     (e : Nat) (hst : pf.state = .paramNameEnd ∨ pf.state = .possibleParamNameEnd ∨ pf.state = .paramValEnd ∨
-      pf.state = .possibleValEnd) : nnStepOk b m0 o (naCommaAfterWS h b pf i e) := by
+      pf.state = .possibleValEnd) : nnStepOk mv b m0 o (naCommaAfterWS h b pf i e) := by
   unfold naCommaAfterWS
   split
   · exact nn_eoh_ok h hI e i 1 .moreValues (by decide) (Or.inr hst) (by omega) (by omega)
   · exact nn_ok_err hI.out (by decide)
 
-theorem nn_naLWS (h : Nat) {b : Buf} {m0 : NnNum} {o i : Nat} {pf : PFromBody} (hI : NnInv b m0 o i pf)
-    (hne : ¬ nnAtPos pf.state) : nnStepOk b m0 o (naLWS h b i pf) := by
+theorem nn_naLWS (h : Nat) {b : Buf} {m0 : NnNum} {o i : Nat} {pf : PFromBody} (hI : NnInv mv b m0 o i pf)
+    (hne : ¬ nnAtPos pf.state) : nnStepOk mv b m0 o (naLWS h b i pf) := by
   unfold naLWS lwsStd
   rcases hsk : skipLWS b i 0 with ⟨n, crl, e1⟩
   have hr := skipLWS_range b i 0 hsk
@@ -563,7 +577,7 @@ macro "nn_arith" h5:ident : tactic =>
         | (simp only [$h5:ident]; done)
         | exact nn_gap_eq (nn_run_empty _ _ _) (Nat.le_refl _) (by assumption) (by assumption)
         | exact nn_gap_eq (by simp only [$h5:ident]) (by omega) (by assumption) (by assumption)
-        | exact NnGap.extend (by simp only [$h5:ident]) (by assumption) (by omega)))
+        | (refine NnGap.extend ?_ (by assumption) (by omega); simp only [$h5:ident]; done)))
 
 /-- closes `NnInv … pf'` for an explicitly updated object from the destructured invariant of `pf` (`h5`, its `nnPend`
     fact, already simplified with the state equation `g`; `h6` its `NnAcc` fact) -/
@@ -575,18 +589,18 @@ macro "nn_close" g:ident h5:ident h6:ident : tactic =>
                  PFromBody.extParams, PFromBody.resetUPT]; omega)
              · first | omega | (dsimp only [PFromBody.setURI, PFromBody.setName, PFromBody.setV, PFromBody.extV,
                  PFromBody.extParams, PFromBody.resetUPT]; omega)
-             · (simp only [nnPend, $g:ident, PFromBody.setURI, PFromBody.setName, PFromBody.setV, PFromBody.extV,
+             · (simp only [nnPend, nnGapM, nnEqM, $g:ident, PFromBody.setURI, PFromBody.setName, PFromBody.setV, PFromBody.extV,
                  PFromBody.extParams, PFromBody.resetUPT]; nn_arith $h5)))
 
 theorem nn_stepA (h : Nat) {b : Buf} {m0 : NnNum} {o i : Nat} {pf : PFromBody} (c : UInt8) (hb : b[i]? = some c)
-    (hI : NnInv b m0 o i pf)
+    (hmv : multipleValsOk h = mv) (hI : NnInv mv b m0 o i pf)
     (hg : pf.state = .init ∨ pf.state = .name ∨ pf.state = .nameOrURI ∨ pf.state = .nameOrURIEnd) :
-    nnStepOk b m0 o (naStepA h b i c pf) := by
+    nnStepOk mv b m0 o (naStepA h b i c pf) := by
   have hib := get?_lt hb
   have hI' := hI
   obtain ⟨h1, h2, h3, h4, h5, h6⟩ := hI
   unfold naStepA
-  rcases hg with g | g | g | g <;> simp only [nnPend, g] at h5 <;> simp +decide only [g, ↓reduceIte] <;> repeat' split
+  rcases hg with g | g | g | g <;> cases mv <;> simp only [nnPend, nnGapM, nnEqM, g] at h5 <;> simp +decide only [g, hmv, Bool.false_eq_true, ↓reduceIte] <;> repeat' split
   all_goals first
     | exact nn_naLWS h hI' (by simp [nnAtPos, g])
     | exact nn_moreValues h hI' hib
@@ -595,14 +609,14 @@ theorem nn_stepA (h : Nat) {b : Buf} {m0 : NnNum} {o i : Nat} {pf : PFromBody} (
     | (refine nn_ok_cont ?_; nn_close g h5 h6)
 
 theorem nn_stepQ (h : Nat) {b : Buf} {m0 : NnNum} {o i : Nat} {pf : PFromBody} (c : UInt8) (hb : b[i]? = some c)
-    (hI : NnInv b m0 o i pf)
+    (hI : NnInv mv b m0 o i pf)
     (hg : pf.state = .quoted ∨ pf.state = .quotedVal ∨ pf.state = .quotedPossibleVal) :
-    nnStepOk b m0 o (naStepQ h b i c pf) := by
+    nnStepOk mv b m0 o (naStepQ h b i c pf) := by
   have hib := get?_lt hb
   have hI' := hI
   obtain ⟨h1, h2, h3, h4, h5, h6⟩ := hI
   unfold naStepQ
-  rcases hg with g | g | g <;> simp only [nnPend, g] at h5 <;> simp +decide only [g, ↓reduceIte] <;> repeat' split
+  rcases hg with g | g | g <;> cases mv <;> simp only [nnPend, nnGapM, nnEqM, g] at h5 <;> simp +decide only [g, Bool.false_eq_true, ↓reduceIte] <;> repeat' split
   all_goals first
     | exact nn_naLWS h hI' (by simp [nnAtPos, g])
     | exact nn_ok_more hI'.saveS
@@ -613,7 +627,7 @@ theorem nn_stepQ (h : Nat) {b : Buf} {m0 : NnNum} {o i : Nat} {pf : PFromBody} (
     | (refine nn_ok_cont ?_; nn_close g h5 h6)
 
 theorem nn_stepU {b : Buf} {m0 : NnNum} {o i : Nat} {pf : PFromBody} (c : UInt8) (hb : b[i]? = some c)
-    (hI : NnInv b m0 o i pf) (g : pf.state = .uri) : nnStepOk b m0 o (naStepU i c pf) := by
+    (hI : NnInv mv b m0 o i pf) (g : pf.state = .uri) : nnStepOk mv b m0 o (naStepU i c pf) := by
   have hib := get?_lt hb
   have hI' := hI
   obtain ⟨h1, h2, h3, h4, h5, h6⟩ := hI
@@ -625,7 +639,7 @@ theorem nn_stepU {b : Buf} {m0 : NnNum} {o i : Nat} {pf : PFromBody} (c : UInt8)
     | (refine nn_ok_cont ?_; nn_close g h5 h6)
 
 theorem nn_stepUF (h : Nat) {b : Buf} {m0 : NnNum} {o i : Nat} {pf : PFromBody} (c : UInt8) (hb : b[i]? = some c)
-    (hI : NnInv b m0 o i pf) (g : pf.state = .uriFound) : nnStepOk b m0 o (naStepUF h b i c pf) := by
+    (hI : NnInv mv b m0 o i pf) (g : pf.state = .uriFound) : nnStepOk mv b m0 o (naStepUF h b i c pf) := by
   have hib := get?_lt hb
   have hI' := hI
   obtain ⟨h1, h2, h3, h4, h5, h6⟩ := hI
@@ -638,7 +652,7 @@ theorem nn_stepUF (h : Nat) {b : Buf} {m0 : NnNum} {o i : Nat} {pf : PFromBody} 
     | (refine nn_ok_cont ?_; nn_close g h5 h6)
 
 theorem nn_stepStar (h : Nat) {b : Buf} {m0 : NnNum} {o i : Nat} {pf : PFromBody} (c : UInt8)
-    (hI : NnInv b m0 o i pf) (g : pf.state = .star) : nnStepOk b m0 o (naStepStar h b i c pf) := by
+    (hI : NnInv mv b m0 o i pf) (g : pf.state = .star) : nnStepOk mv b m0 o (naStepStar h b i c pf) := by
   unfold naStepStar
   split
   · exact nn_naLWS h hI (by simp [nnAtPos, g])
@@ -649,40 +663,42 @@ theorem nn_stepStar (h : Nat) {b : Buf} {m0 : NnNum} {o i : Nat} {pf : PFromBody
 /-- a parameter without value text ends at `;` -/
 theorem nn_sfp_flag {b : Buf} {m0 : NnNum} {o i : Nat} (pf : PFromBody) (hoi : o ≤ i) (hib : i < b.size)
     (h1 : o ≤ pf.pstart) (h2 : pf.pstart < pf.pend) (h3 : pf.pend ≤ i) (h4 : pf.vend ≤ i) (h5 : pf.vstart = pf.vend)
-    (hacc : NnAcc b m0 o i pf.nnNum) (hst : pf.state = .newParam ∨ pf.state = .newPossibleParam) :
-    NnInv b m0 o (i + 1) (setFromParamVal b pf) :=
+    (hacc : NnAcc mv b m0 o i pf.nnNum) (hst : pf.state = .newParam ∨ pf.state = .newPossibleParam) :
+    NnInv mv b m0 o (i + 1) (setFromParamVal b pf) :=
   nn_sfp_inv pf hoi (by omega) h3 h4 ⟨h1, h2, h3, Or.inl h5⟩ hacc hst (by omega) (by omega)
 
-/-- a parameter with `=` and a non-empty value text ends at `;` -/
+/-- a parameter with `=` ends at `;` (the value text may be empty) -/
 theorem nn_sfp_val {b : Buf} {m0 : NnNum} {o i : Nat} (pf : PFromBody) (hoi : o ≤ i) (hib : i < b.size)
-    (h1 : o ≤ pf.pstart) (h2 : pf.pstart < pf.pend) (h3 : pf.pend < pf.vstart) (h4 : pf.vstart < pf.vend) (h5 : pf.vend ≤ i)
-    (hgap : NnGap b pf.pend pf.vstart)
-    (hacc : NnAcc b m0 o i pf.nnNum) (hst : pf.state = .newParam ∨ pf.state = .newPossibleParam) :
-    NnInv b m0 o (i + 1) (setFromParamVal b pf) :=
-  nn_sfp_inv pf hoi (by omega) (by omega) h5 ⟨h1, h2, by show pf.pend ≤ i; omega, Or.inr ⟨h3, h4, h5, hgap⟩⟩ hacc hst
-    (by omega) (by omega)
+    (h1 : o ≤ pf.pstart) (h2 : pf.pstart < pf.pend) (h3 : pf.pend < pf.vstart) (h4 : pf.vstart ≤ pf.vend) (h5 : pf.vend ≤ i)
+    (hgap : nnGapM mv b pf.pend pf.vstart)
+    (hacc : NnAcc mv b m0 o i pf.nnNum) (hst : pf.state = .newParam ∨ pf.state = .newPossibleParam) :
+    NnInv mv b m0 o (i + 1) (setFromParamVal b pf) := by
+  refine nn_sfp_inv pf hoi (by omega) (by omega) h5 ⟨h1, h2, by show pf.pend ≤ i; omega, ?_⟩ hacc hst (by omega) (by omega)
+  rcases Nat.lt_or_ge pf.vstart pf.vend with hlt | hge
+  · exact Or.inr ⟨h3, hlt, h5, hgap⟩
+  · exact Or.inl (by show pf.vstart = pf.vend; omega)
 
 /-- white space after a parameter name (`n` = where the white space ends) -/
-theorem nn_nameWS {b : Buf} {m0 : NnNum} {o i n : Nat} {pf : PFromBody} (hI : NnInv b m0 o i pf)
+theorem nn_nameWS {b : Buf} {m0 : NnNum} {o i n : Nat} {pf : PFromBody} (hI : NnInv mv b m0 o i pf)
     (hg : pf.state = .newParam ∨ pf.state = .newPossibleParam ∨ pf.state = .paramName ∨ pf.state = .possibleParamName)
-    (hin : i ≤ n) (hn : n ≤ b.size) (hrun : Run isLWSch b i n) : NnInv b m0 o n (naNameWS pf i) := by
+    (hin : i ≤ n) (hn : n ≤ b.size) (hrun : Run isLWSch b i n) : NnInv mv b m0 o n (naNameWS pf i) := by
   obtain ⟨h1, h2, h3, h4, h5, h6⟩ := hI
   unfold naNameWS
-  rcases hg with g | g | g | g <;> simp only [nnPend, g] at h5 <;> simp +decide only [g, ↓reduceIte] <;> nn_close g h5 h6
+  rcases hg with g | g | g | g <;> cases mv <;> simp only [nnPend, nnGapM, nnEqM, g] at h5 <;> simp +decide only [g, Bool.false_eq_true, ↓reduceIte] <;> nn_close g h5 h6
 
-theorem nn_paramStart {b : Buf} {m0 : NnNum} {o i : Nat} {pf : PFromBody} (hI : NnInv b m0 o i pf) (hib : i < b.size)
+theorem nn_paramStart {b : Buf} {m0 : NnNum} {o i : Nat} {pf : PFromBody} (hI : NnInv mv b m0 o i pf) (hib : i < b.size)
     (hg : pf.state = .newParam ∨ pf.state = .newPossibleParam ∨ pf.state = .paramName ∨ pf.state = .possibleParamName) :
-    NnInv b m0 o (i + 1) (naParamsOffs (naParamStart pf i) i) := by
+    NnInv mv b m0 o (i + 1) (naParamsOffs (naParamStart pf i) i) := by
   obtain ⟨h1, h2, h3, h4, h5, h6⟩ := hI
   unfold naParamsOffs naParamStart
-  rcases hg with g | g | g | g <;> simp only [nnPend, g] at h5 <;> simp +decide only [g, ↓reduceIte] <;> split <;>
+  rcases hg with g | g | g | g <;> cases mv <;> simp only [nnPend, nnGapM, nnEqM, g] at h5 <;> simp +decide only [g, Bool.false_eq_true, ↓reduceIte] <;> split <;>
     nn_close g h5 h6
 
 /-- `case fbNewParam, fbNewPossibleParam, fbParamName, fbPossibleParamName:` -/
 theorem nn_stepP (h : Nat) {b : Buf} {m0 : NnNum} {o i : Nat} {pf : PFromBody} (c : UInt8) (hb : b[i]? = some c)
-    (hI : NnInv b m0 o i pf)
+    (hmv : multipleValsOk h = mv) (hI : NnInv mv b m0 o i pf)
     (hg : pf.state = .newParam ∨ pf.state = .newPossibleParam ∨ pf.state = .paramName ∨ pf.state = .possibleParamName) :
-    nnStepOk b m0 o (naStepP h b i c pf) := by
+    nnStepOk mv b m0 o (naStepP h b i c pf) := by
   have hib := get?_lt hb
   have hI' := hI
   have hW := nn_nameWS hI hg (Nat.le_refl _) hI.hi (nn_run_empty _ _ _)
@@ -699,7 +715,7 @@ theorem nn_stepP (h : Nat) {b : Buf} {m0 : NnNum} {o i : Nat} {pf : PFromBody} (
       exact nn_eoh_ok h hW i n crl .ok (by decide) (Or.inl rfl) (by omega) (by omega)
     · exact nn_ok_err (hW.out.mono hr.1 (hr.2 h2)) (by decide)
     · exact nn_ok_more hI'.saveS
-  · rcases hg with g | g | g | g <;> simp only [nnPend, g] at h5 <;> simp +decide only [g, ↓reduceIte] <;> repeat' split
+  · rcases hg with g | g | g | g <;> cases mv <;> simp only [nnPend, nnGapM, nnEqM, g] at h5 <;> simp +decide only [g, hmv, Bool.false_eq_true, ↓reduceIte] <;> repeat' split
     all_goals first
       | exact nn_moreValues h hI' hib
       | exact nn_ok_err hI'.out (by decide)
@@ -710,14 +726,14 @@ theorem nn_stepP (h : Nat) {b : Buf} {m0 : NnNum} {o i : Nat} {pf : PFromBody} (
 
 /-- `case fbParamNameEnd, fbPossibleParamNameEnd:` -/
 theorem nn_stepPE (h : Nat) {b : Buf} {m0 : NnNum} {o i : Nat} {pf : PFromBody} (c : UInt8) (hb : b[i]? = some c)
-    (hI : NnInv b m0 o i pf) (hg : pf.state = .paramNameEnd ∨ pf.state = .possibleParamNameEnd) :
-    nnStepOk b m0 o (naStepPE h b i c pf) := by
+    (hI : NnInv mv b m0 o i pf) (hg : pf.state = .paramNameEnd ∨ pf.state = .possibleParamNameEnd) :
+    nnStepOk mv b m0 o (naStepPE h b i c pf) := by
   have hib := get?_lt hb
   have hI' := hI
   have hC := nn_commaAfterWS h hI hib pf.pend (by rcases hg with g | g <;> simp [g])
   obtain ⟨h1, h2, h3, h4, h5, h6⟩ := hI
   unfold naStepPE
-  rcases hg with g | g <;> simp only [nnPend, g] at h5 <;> simp +decide only [g, ↓reduceIte] <;> repeat' split
+  rcases hg with g | g <;> cases mv <;> simp only [nnPend, nnGapM, nnEqM, g] at h5 <;> simp +decide only [g, Bool.false_eq_true, ↓reduceIte] <;> repeat' split
   all_goals first
     | exact hC
     | exact nn_ok_err hI'.out (by decide)
@@ -727,26 +743,26 @@ theorem nn_stepPE (h : Nat) {b : Buf} {m0 : NnNum} {o i : Nat} {pf : PFromBody} 
 
 /-! #### parameter values -/
 
-theorem nn_valWS_true {b : Buf} {m0 : NnNum} {o i n : Nat} {pf : PFromBody} (hI : NnInv b m0 o i pf) (hin : i ≤ n)
+theorem nn_valWS_true {b : Buf} {m0 : NnNum} {o i n : Nat} {pf : PFromBody} (hI : NnInv mv b m0 o i pf) (hin : i ≤ n)
     (hn : n ≤ b.size) (hrun : Run isLWSch b i n)
     (hg : pf.state = .newParamVal ∨ pf.state = .newPossibleVal ∨ pf.state = .paramVal ∨ pf.state = .possibleVal) :
-    NnInv b m0 o n (naValWS pf i n true) := by
+    NnInv mv b m0 o n (naValWS pf i n true) := by
   obtain ⟨h1, h2, h3, h4, h5, h6⟩ := hI
   unfold naValWS
-  rcases hg with g | g | g | g <;> simp only [nnPend, g] at h5 <;> simp +decide only [g, ↓reduceIte] <;> nn_close g h5 h6
+  rcases hg with g | g | g | g <;> cases mv <;> simp only [nnPend, nnGapM, nnEqM, g] at h5 <;> simp +decide only [g, Bool.false_eq_true, ↓reduceIte] <;> nn_close g h5 h6
 
-theorem nn_valWS_false {b : Buf} {m0 : NnNum} {o i n : Nat} {pf : PFromBody} (hI : NnInv b m0 o i pf)
+theorem nn_valWS_false {b : Buf} {m0 : NnNum} {o i n : Nat} {pf : PFromBody} (hI : NnInv mv b m0 o i pf)
     (hg : pf.state = .newParamVal ∨ pf.state = .newPossibleVal ∨ pf.state = .paramVal ∨ pf.state = .possibleVal) :
-    NnInv b m0 o i (naValWS pf i n false) := by
+    NnInv mv b m0 o i (naValWS pf i n false) := by
   obtain ⟨h1, h2, h3, h4, h5, h6⟩ := hI
   unfold naValWS
-  rcases hg with g | g | g | g <;> simp only [nnPend, g] at h5 <;> simp +decide only [g, ↓reduceIte] <;> nn_close g h5 h6
+  rcases hg with g | g | g | g <;> cases mv <;> simp only [nnPend, nnGapM, nnEqM, g] at h5 <;> simp +decide only [g, Bool.false_eq_true, ↓reduceIte] <;> nn_close g h5 h6
 
 /-- `case fbNewParamVal, fbNewPossibleVal, fbParamVal, fbPossibleVal:` -/
 theorem nn_stepV (h : Nat) {b : Buf} {m0 : NnNum} {o i : Nat} {pf : PFromBody} (c : UInt8) (hb : b[i]? = some c)
-    (hI : NnInv b m0 o i pf)
+    (hmv : multipleValsOk h = mv) (hI : NnInv mv b m0 o i pf)
     (hg : pf.state = .newParamVal ∨ pf.state = .newPossibleVal ∨ pf.state = .paramVal ∨ pf.state = .possibleVal) :
-    nnStepOk b m0 o (naStepV h b i c pf) := by
+    nnStepOk mv b m0 o (naStepV h b i c pf) := by
   have hib := get?_lt hb
   have hI' := hI
   obtain ⟨h1, h2, h3, h4, h5, h6⟩ := hI
@@ -762,7 +778,7 @@ theorem nn_stepV (h : Nat) {b : Buf} {m0 : NnNum} {o i : Nat} {pf : PFromBody} (
       exact nn_eoh_ok h hF i n crl .ok (by decide) (Or.inl rfl) (by omega) (by omega)
     · exact nn_ok_err (hF.out.mono hr.1 (hr.2 h2)) (by decide)
     · exact nn_ok_more hI'.saveS
-  · rcases hg with g | g | g | g <;> simp only [nnPend, g] at h5 <;> simp +decide only [g, ↓reduceIte] <;> repeat' split
+  · rcases hg with g | g | g | g <;> cases mv <;> simp only [nnPend, nnGapM, nnEqM, g] at h5 <;> simp +decide only [g, hmv, Bool.false_eq_true, ↓reduceIte] <;> repeat' split
     all_goals first
       | exact nn_moreValues h hI' hib
       | exact nn_ok_err hI'.out (by decide)
@@ -774,14 +790,14 @@ theorem nn_stepV (h : Nat) {b : Buf} {m0 : NnNum} {o i : Nat} {pf : PFromBody} (
 
 /-- `case fbParamValEnd, fbPossibleValEnd:` -/
 theorem nn_stepVE (h : Nat) {b : Buf} {m0 : NnNum} {o i : Nat} {pf : PFromBody} (c : UInt8) (hb : b[i]? = some c)
-    (hI : NnInv b m0 o i pf) (hg : pf.state = .paramValEnd ∨ pf.state = .possibleValEnd) :
-    nnStepOk b m0 o (naStepVE h b i c pf) := by
+    (hI : NnInv mv b m0 o i pf) (hg : pf.state = .paramValEnd ∨ pf.state = .possibleValEnd) :
+    nnStepOk mv b m0 o (naStepVE h b i c pf) := by
   have hib := get?_lt hb
   have hI' := hI
   have hC := nn_commaAfterWS h hI hib pf.vend (by rcases hg with g | g <;> simp [g])
   obtain ⟨h1, h2, h3, h4, h5, h6⟩ := hI
   unfold naStepVE
-  rcases hg with g | g <;> simp only [nnPend, g] at h5 <;> simp +decide only [g, ↓reduceIte] <;> repeat' split
+  rcases hg with g | g <;> cases mv <;> simp only [nnPend, nnGapM, nnEqM, g] at h5 <;> simp +decide only [g, Bool.false_eq_true, ↓reduceIte] <;> repeat' split
   all_goals first
     | exact hC
     | exact nn_ok_err hI'.out (by decide)
@@ -791,7 +807,7 @@ theorem nn_stepVE (h : Nat) {b : Buf} {m0 : NnNum} {o i : Nat} {pf : PFromBody} 
 
 /-- **every step of the loop body**: a continuing step and a MoreBytes exit keep the invariant, every exit satisfies `NnOut` -/
 theorem nn_step (h : Nat) {b : Buf} {m0 : NnNum} {o i : Nat} {pf : PFromBody} (c : UInt8) (hb : b[i]? = some c)
-    (hI : NnInv b m0 o i pf) : nnStepOk b m0 o (naStep h b i c pf) := by
+    (hI : NnInv mv b m0 o i pf) : nnStepOk mv b m0 o (naStep h b i c pf) := by
   have hib := get?_lt hb
   unfold naStep
   cases hst : pf.state <;> simp only
@@ -809,12 +825,12 @@ theorem nn_step (h : Nat) {b : Buf} {m0 : NnNum} {o i : Nat} {pf : PFromBody} (c
 
 /-! ### the loop and ParseNameAddrPVal -/
 
-theorem nn_runLoop (h : Nat) (b : Buf) (m0 : NnNum) (o i : Nat) (pf : PFromBody) (hI : NnInv b m0 o i pf) :
-    NnOut b m0 o (runLoop (naMachine h) b i pf).1 (runLoop (naMachine h) b i pf).2.2 ∧
+theorem nn_runLoop (h : Nat) (b : Buf) (m0 : NnNum) (o i : Nat) (pf : PFromBody) (hI : NnInv mv b m0 o i pf) :
+    NnOut mv b m0 o (runLoop (naMachine h) b i pf).1 (runLoop (naMachine h) b i pf).2.2 ∧
     ((runLoop (naMachine h) b i pf).2.1 = .moreBytes →
-      NnInv b m0 o (runLoop (naMachine h) b i pf).1 (runLoop (naMachine h) b i pf).2.2) := by
-  refine runLoop_inv (naMachine h) b (NnInv b m0 o)
-    (fun r => NnOut b m0 o r.1 r.2.2 ∧ (r.2.1 = .moreBytes → NnInv b m0 o r.1 r.2.2)) ?_ ?_ ?_ i pf hI
+      NnInv mv b m0 o (runLoop (naMachine h) b i pf).1 (runLoop (naMachine h) b i pf).2.2) := by
+  refine runLoop_inv (naMachine h) b (NnInv mv b m0 o)
+    (fun r => NnOut mv b m0 o r.1 r.2.2 ∧ (r.2.1 = .moreBytes → NnInv mv b m0 o r.1 r.2.2)) ?_ ?_ ?_ i pf hI
   · intro i c st i' st' hb hP hs
     have hk := nn_step h c hb hP
     change naStep h b i c st = .cont i' st' at hs
@@ -832,9 +848,9 @@ theorem nn_runLoop (h : Nat) (b : Buf) (m0 : NnNum) (o i : Nat) (pf : PFromBody)
     (a new object does, `nn_entry_new`; so does an object returned with MoreBytes), the numeric fields of the returned
     object are the fold of `nnEffect` over a list of parameter spans lying in `[o, o')`; after MoreBytes the object
     satisfies the invariant again. -/
-theorem nn_parse (h : Nat) (b : Buf) (m0 : NnNum) (o offs : Nat) (pf : PFromBody) (hE : NnInv b m0 o offs pf)
+theorem nn_parse (h : Nat) (b : Buf) (m0 : NnNum) (o offs : Nat) (pf : PFromBody) (hE : NnInv mv b m0 o offs pf)
     {o' : Nat} {e : Err} {pf' : PFromBody} (hr : parseNameAddrPVal h b offs pf = (o', e, pf')) :
-    NnOut b m0 o o' pf' ∧ (e = .moreBytes → NnInv b m0 o o' pf') := by
+    NnOut mv b m0 o o' pf' ∧ (e = .moreBytes → NnInv mv b m0 o o' pf') := by
   unfold parseNameAddrPVal at hr
   split at hr
   · cases hr
@@ -851,7 +867,7 @@ theorem nn_parse (h : Nat) (b : Buf) (m0 : NnNum) (o offs : Nat) (pf : PFromBody
     exact ⟨key.1.congr x1, fun hm => (key.2 hm).congr x2 x3 x4 x5 x6 x1⟩
 
 /-- a new object may be passed at any offset inside the buffer -/
-theorem nn_entry_new (b : Buf) (o : Nat) (ho : o ≤ b.size) : NnInv b {} o o {} :=
+theorem nn_entry_new (b : Buf) (o : Nat) (ho : o ≤ b.size) : NnInv mv b {} o o {} :=
   ⟨Nat.le_refl _, ho, Nat.zero_le _, Nat.zero_le _, ⟨Nat.le_refl _, rfl⟩, ⟨[], rfl, fun x hx => by cases hx⟩⟩
 
 /-! ### E. what the fold says about `expires` -/
@@ -930,7 +946,7 @@ theorem nn_split_last (P : PSpan → Prop) (L : List PSpan) :
     `[vs, ve)` — and `Expires` is the decimal value of the LEADING DIGITS of that text, saturated at 2^32-1 (digit
     strings of any length); when the text consists of digits only it is `min (value) (2^32-1)`.  If `HasExpires` is
     not reported, `Expires` still has its initial value. -/
-theorem NnOut.expires {b : Buf} {m0 : NnNum} {o lim : Nat} {pf : PFromBody} (hO : NnOut b m0 o lim pf)
+theorem NnOut.expires {b : Buf} {m0 : NnNum} {o lim : Nat} {pf : PFromBody} (hO : NnOut mv b m0 o lim pf)
     (h0 : m0.hasExpires = false) :
     (pf.hasExpires = false ∧ pf.expires = m0.expires) ∨
     (pf.hasExpires = true ∧ ∃ ps pe vs ve, o ≤ ps ∧ ps < pe ∧ pe < vs ∧ vs < ve ∧ ve ≤ lim ∧ lim ≤ b.size ∧
@@ -1220,7 +1236,7 @@ theorem nn_all_q_bad (b : Buf) (L : List PSpan) (m0 : NnNum) (x : PSpan) (hx : x
   rw [hs]; exact he
 
 /-- a well-located span that is not a `q` parameter with a rejected text leaves the parameter error alone -/
-theorem nn_effect_perr_keep (b : Buf) (x : PSpan) (m : NnNum) {o lim : Nat} (hs : NnSpanOk b o lim x) (hx : ¬ nnIsQBad b x) :
+theorem nn_effect_perr_keep (b : Buf) (x : PSpan) (m : NnNum) {o lim : Nat} (hs : NnSpanOk mv b o lim x) (hx : ¬ nnIsQBad b x) :
     (nnEffect b x.ps x.pe x.vs x.ve m).paramErr = m.paramErr := by
   by_cases hq : nnIsQ b x
   · by_cases hg : ∃ v, NnQOk (b.extract x.vs x.ve).toList v
@@ -1245,7 +1261,7 @@ theorem nn_effect_perr_keep (b : Buf) (x : PSpan) (m : NnNum) {o lim : Nat} (hs 
         · exact absurd ⟨s2, s4.2.1⟩ hc
 
 /-- the parameter error is set only because of a `q` parameter with a rejected text -/
-theorem nn_all_perr_keep (b : Buf) (L : List PSpan) (m0 : NnNum) {o lim : Nat} (hs : ∀ x ∈ L, NnSpanOk b o lim x)
+theorem nn_all_perr_keep (b : Buf) (L : List PSpan) (m0 : NnNum) {o lim : Nat} (hs : ∀ x ∈ L, NnSpanOk mv b o lim x)
     (hn : ∀ x ∈ L, ¬ nnIsQBad b x) : (nnAll b L m0).paramErr = m0.paramErr := by
   induction L generalizing m0 with
   | nil => rfl
@@ -1256,7 +1272,7 @@ theorem nn_all_perr_keep (b : Buf) (L : List PSpan) (m0 : NnNum) {o lim : Nat} (
 /-- **(b) `q` at run level**, for every object satisfying `NnOut`: `Q` either still has its initial value, or it is
     EXACTLY the value in thousandths of the text of a `q` parameter of the consumed input whose text has an accepted
     shape; never a wrapped or truncated number. -/
-theorem NnOut.q {b : Buf} {m0 : NnNum} {o lim : Nat} {pf : PFromBody} (hO : NnOut b m0 o lim pf) :
+theorem NnOut.q {b : Buf} {m0 : NnNum} {o lim : Nat} {pf : PFromBody} (hO : NnOut mv b m0 o lim pf) :
     pf.q = m0.q ∨
     ∃ ps pe vs ve, o ≤ ps ∧ ps < pe ∧ pe < vs ∧ vs < ve ∧ ve ≤ lim ∧ lim ≤ b.size ∧
       cmpEqL (b.extract ps pe) sQ = true ∧ NnQOk (b.extract vs ve).toList pf.q := by
@@ -1278,8 +1294,8 @@ theorem NnOut.q {b : Buf} {m0 : NnNum} {o lim : Nat} {pf : PFromBody} (hO : NnOu
     `q` parameter of `L` with an accepted text (initial value if there is none), (2) if some `q` parameter of `L` has a
     rejected text then `ParamErr` is set, and (3) if no `q` parameter of `L` has a rejected text `ParamErr` has its
     initial value. -/
-theorem NnOut.q_flag {b : Buf} {m0 : NnNum} {o lim : Nat} {pf : PFromBody} (hO : NnOut b m0 o lim pf) :
-    ∃ L : List PSpan, pf.nnNum = nnAll b L m0 ∧ (∀ x ∈ L, NnSpanOk b o lim x) ∧
+theorem NnOut.q_flag {b : Buf} {m0 : NnNum} {o lim : Nat} {pf : PFromBody} (hO : NnOut mv b m0 o lim pf) :
+    ∃ L : List PSpan, pf.nnNum = nnAll b L m0 ∧ (∀ x ∈ L, NnSpanOk mv b o lim x) ∧
       (((∀ x ∈ L, ¬ ∃ v, nnIsQGood b x v) ∧ pf.q = m0.q) ∨
         ∃ L1 x L2, L = L1 ++ x :: L2 ∧ nnIsQGood b x pf.q ∧ ∀ y ∈ L2, ¬ ∃ v, nnIsQGood b y v) ∧
       ((∃ x ∈ L, nnIsQBad b x) → pf.paramErr ≠ .ok) ∧
@@ -1300,7 +1316,7 @@ theorem NnOut.q_flag {b : Buf} {m0 : NnNum} {o lim : Nat} {pf : PFromBody} (hO :
 
 /-! ### H. more bytes: the invariant survives the extension of the buffer -/
 
-theorem nn_effect_app (b s : Buf) (x : PSpan) (m : NnNum) {o lim : Nat} (hx : NnSpanOk b o lim x) (hlim : lim ≤ b.size) :
+theorem nn_effect_app (b s : Buf) (x : PSpan) (m : NnNum) {o lim : Nat} (hx : NnSpanOk mv b o lim x) (hlim : lim ≤ b.size) :
     nnEffect (b ++ s) x.ps x.pe x.vs x.ve m = nnEffect b x.ps x.pe x.vs x.ve m := by
   obtain ⟨_, s2, s3, s4⟩ := hx
   unfold nnEffect
@@ -1312,7 +1328,7 @@ theorem nn_effect_app (b s : Buf) (x : PSpan) (m : NnNum) {o lim : Nat} (hx : Nn
     rw [if_pos c1, if_pos c1, extract_app b s x.ps x.pe (by omega), extract_app b s x.vs x.ve hve]
   · rw [if_neg c1, if_neg c1]
 
-theorem nn_all_app (b s : Buf) (L : List PSpan) (m : NnNum) {o lim : Nat} (hL : ∀ x ∈ L, NnSpanOk b o lim x)
+theorem nn_all_app (b s : Buf) (L : List PSpan) (m : NnNum) {o lim : Nat} (hL : ∀ x ∈ L, NnSpanOk mv b o lim x)
     (hlim : lim ≤ b.size) : nnAll (b ++ s) L m = nnAll b L m := by
   induction L generalizing m with
   | nil => rfl
@@ -1320,18 +1336,18 @@ theorem nn_all_app (b s : Buf) (L : List PSpan) (m : NnNum) {o lim : Nat} (hL : 
     rw [nn_all_cons, nn_all_cons, nn_effect_app b s x m (hL x List.mem_cons_self) hlim]
     exact ih _ (fun y hy => hL y (List.mem_cons_of_mem _ hy))
 
-theorem NnInv.app {b : Buf} {m0 : NnNum} {o i : Nat} {pf : PFromBody} (h : NnInv b m0 o i pf) (s : Buf) :
-    NnInv (b ++ s) m0 o i pf := by
+theorem NnInv.app {b : Buf} {m0 : NnNum} {o i : Nat} {pf : PFromBody} (h : NnInv mv b m0 o i pf) (s : Buf) :
+    NnInv mv (b ++ s) m0 o i pf := by
   obtain ⟨h1, h2, h3, h4, h5, L, h6, h7⟩ := h
   refine ⟨h1, by rw [Array.size_append]; omega, h3, h4, h5, L, ?_, h7⟩
   rw [nn_all_app b s L m0 h7 h2]; exact h6
 
 /-- **resumed call**: a call that asked for more bytes, followed by a call on the extended buffer from the returned
     offset with the returned object (and so on: the hypothesis of the second call is the conclusion of the first) -/
-theorem nn_parse_resume (h : Nat) (b s : Buf) (m0 : NnNum) (o offs : Nat) (pf : PFromBody) (hE : NnInv b m0 o offs pf)
+theorem nn_parse_resume (h : Nat) (b s : Buf) (m0 : NnNum) (o offs : Nat) (pf : PFromBody) (hE : NnInv mv b m0 o offs pf)
     {o1 : Nat} {pf1 : PFromBody} (hr1 : parseNameAddrPVal h b offs pf = (o1, .moreBytes, pf1))
     {o' : Nat} {e : Err} {pf' : PFromBody} (hr2 : parseNameAddrPVal h (b ++ s) o1 pf1 = (o', e, pf')) :
-    NnOut (b ++ s) m0 o o' pf' ∧ (e = .moreBytes → NnInv (b ++ s) m0 o o' pf') :=
+    NnOut mv (b ++ s) m0 o o' pf' ∧ (e = .moreBytes → NnInv mv (b ++ s) m0 o o' pf') :=
   nn_parse h (b ++ s) m0 o o1 pf1 (((nn_parse h b m0 o offs pf hE hr1).2 rfl).app s) hr2
 
 /-! ### I. ParseNameAddrPVal on a new object (any header kind; `parseOneContact` is the Contact instance) -/
